@@ -12,7 +12,7 @@ from pyvc.sym import SInt, SId, ctx
 from pyvc.nodes import Contract, AbsEnv, is_abs, band, bor, bnot, implies, fall
 from pyvc.folds import unwrap
 from pyvc.engine import Harness
-from .common import new_base, new_family, child_invariants, mk_atleast, Bo, _mv
+from .common import new_base, new_family, child_invariants, mk_atleast, Bo, _mv, ints
 from .specs import ival, is_variable, is_variable_t
 from .assume import bounds_eq, pair_eq, own_bounds
 
@@ -178,8 +178,8 @@ class ReduceH(Harness):
                 violated.append(name)
         lhs = self.build(w)[0].reduce().evaluate(dict(e))
         rhs = self.build(w)[0].evaluate(dict(e))
-        detail["reduce().evaluate(e)"] = [int(x) for x in lhs.as_tuple()]
-        detail["evaluate(e)"] = [int(x) for x in rhs.as_tuple()]
+        detail["reduce().evaluate(e)"] = ints(lhs)
+        detail["evaluate(e)"] = ints(rhs)
         if "post.meaning" in violated and tuple(lhs.as_tuple()) == tuple(rhs.as_tuple()):
             violated.remove("post.meaning")
             violated.append("MISMATCH:post.meaning")
